@@ -1,5 +1,6 @@
 import CbiVerif.Lemmas.FindIncDir
 import CbiVerif.Lemmas.Warn
+import CbiVerif.Props.C18Msg
 /-! # C18 — nothing is dropped silently: unhonoured input is always reported.
 
 Model: the warning events of `Model/FindInc.lean` (unresolved include nodes, unknown directives of parsed
